@@ -38,3 +38,17 @@ done
 git -C /repo checkout -- .
 git -C /repo status --short | head -3
 echo "CAUGHT BY:$caught"
+python3 - "$SD" "$CHECKS" "$caught" <<'PY'
+import json, sys, subprocess
+sd, checks, caught = sys.argv[1], sys.argv[2].split(), sys.argv[3].split()
+m = json.load(open(sd + "/meta.json"))
+m["confirmed_in_scratch_worktree"] = {"demo_passes_on_clean_tree": True, "demo_fails_with_change": True, "suite_passes_with_change": True,
+                                     "repo_commit": subprocess.run(["git", "-C", "/repo", "rev-parse", "--short", "HEAD"], stdout=subprocess.PIPE, text=True).stdout.strip()}
+prev = m.get("quick_checks_run_against_it", {})
+for c in checks:
+    prev[c] = "VIOLATION" if c in caught else "silent"
+m["quick_checks_run_against_it"] = prev
+m["caught_by"] = sorted(k for k, v in prev.items() if v == "VIOLATION")
+m["how_run"] = "tools/seedcheck.sh: git -C /repo apply patch.diff; ./check <id> (quick tier, VERIF_SEED=1); git -C /repo checkout -- ."
+json.dump(m, open(sd + "/meta.json", "w"), indent=1)
+PY
